@@ -23,7 +23,16 @@ Correspondence with the Lean model (XsVerif/Model/Access.lean, driver drv_c12):
   norm     normalize_url(spelling, base)          == model normalizeUrl         (all spellings x bases)
   access   every recorded access_control call      == model accessControl        (decision enum)
   resolve  every recorded XMLResource(url source)  == model resolve (sandbox base derivation, url, decision)
-  trace    nested include chains                   == model load (Props: nested loads stay in the root sandbox)
+  trace    random document trees (include / import / uri-mapper, local and remote documents, depth <= 4):
+           EVERY XMLResource construction of the build (source, base_url, allow, url, decision, in order)
+                                                   == model loadRoot (Model/AccessTrace.lean), the function the
+           induction theorems every_fetch_checked / trace_sandbox_confined / ... are about
+  render   normalize_url of remote-looking URLs    == model remoteUrl (get_uri + encode_url port)
+  coding   posixpath.normpath, quote_from_bytes, unquote_to_bytes, os.path.dirname, urlsplit, urlunsplit,
+           quote(safe=...), UTF-8 validity, is_local_url/is_remote_url of CPython / urls.py
+                                                   == the model's re-implementations, string by string
+  The coding theorems (unquote_quote, normpath_idempotent, normalizeUrl_idempotent, remote_render_stays_remote)
+  are also evaluated on the real functions for every generated string.
 """
 from __future__ import annotations
 
@@ -46,7 +55,8 @@ from harness.core import Ctx, Driver, LEAN, REPO
 PROPS = 'XsVerif.Props.C12'
 AUDIT = 'XsVerif.Audit.C12'
 LEAN_TARGETS = ['XsVerif.Props.C12', 'drv_c12']
-LEANCHECK = ['XsVerif.Model.Access', 'XsVerif.Lemmas.Access', 'XsVerif.Props.C12']
+LEANCHECK = ['XsVerif.Model.Access', 'XsVerif.Model.AccessTrace', 'XsVerif.Lemmas.Access', 'XsVerif.Lemmas.AccessCoding',
+             'XsVerif.Lemmas.AccessTrace', 'XsVerif.Props.C12']
 RULE = ('one case = (allow mode, main-source kind, reference mechanism, location spelling) processed by the real '
         'library in a temp tree with a stub remote opener; exhaustive over the catalogue in the thorough tier, '
         'every (mechanism, spelling, allow) with a rotating source kind in the quick tier, plus seeded random '
@@ -547,12 +557,46 @@ SANDBOX_WHATS = ("allow='sandbox' but a file outside the base directory was open
                  'a component of a denied location is part of the built schema')
 
 
+REMOTE_WHATS = ("allow='local' but a remote URL was requested", "allow='sandbox' but a remote URL was requested",
+                'a component of a denied location is part of the built schema')
+
+
+def match_f4(case: dict, detail: dict) -> Optional[str]:
+    """C12-F4: allow in {local, sandbox}; every remote URL requested / served in the run contains a raw line feed
+    (the only strings with a remote scheme that is_remote_url() does not recognise)."""
+    if case.get('allow') not in ('local', 'sandbox') or detail.get('what') not in REMOTE_WHATS:
+        return None
+    rem = [u for u in detail.get('requests', ()) if is_remote_scheme(u)] + list(detail.get('served', ()))
+    if not rem or not all('\n' in u for u in rem):
+        return None
+    if detail.get('what') == REMOTE_WHATS[2] and not str(detail.get('element', '')).startswith('r_'):
+        return None
+    return 'C12-F4'
+
+
+def load_findings(ctx: Ctx) -> None:
+    """entries of notes/findings/C12.json that the committed known_findings.json does not list yet"""
+    p = os.path.join(os.path.dirname(os.path.dirname(os.path.dirname(os.path.abspath(__file__)))), 'notes', 'findings', 'C12.json')
+    try:
+        with open(p) as f:
+            entries = json.load(f).get('findings', [])
+    except (OSError, ValueError):
+        return
+    have = {e.get('id') for e in ctx.known}
+    for e in entries:
+        if e.get('id') not in have:
+            ctx.known.append(e)
+
+
 def known_match(case: dict, detail: dict) -> Optional[str]:
     """Exact rules of notes/findings/C12.json.
 
     C12-F2 / C12-F3: allow='sandbox', no explicit base_url; every file opened outside the sandbox is the URL
     of an XMLResource that the library constructed with base_url=None (so that its sandbox was derived from
     its own location) from the finding's call site.  Anything else opened outside the sandbox is a violation."""
+    f4 = match_f4(case, detail)
+    if f4:
+        return f4
     if case.get('allow') != 'sandbox' or detail.get('what') not in SANDBOX_WHATS:
         return None
     outside = detail.get('outside')
@@ -690,7 +734,13 @@ def compare_batch(ctx: Ctx, batch: Batch, drv: Driver) -> None:
         if what == 'access':
             ctx.traces += 1
             ctx.count('access:' + m['decision'])
-            if m['decision'] != impl:
+            if (m['decision'] == 'ok' and impl == 'blocked-remote' and m.get('class') == 'neither'
+                    and case['allow'] in ('local', 'sandbox')):
+                # tree with notes/fixes/C12-refuse-non-local-in-local-modes.patch applied: the repaired check refuses
+                # a URL that is neither local nor remote (C12-F4), which the model of the unrepaired check admits
+                # (remote_render_counterexample); stricter than the model on exactly this class, never laxer
+                ctx.count('access:repaired-C12-F4')
+            elif m['decision'] != impl:
                 ctx.mismatch('access_control', case, impl, m)
         elif what == 'norm':
             compare_norm(ctx, case, impl, m['norm'])
@@ -705,10 +755,482 @@ def compare_batch(ctx: Ctx, batch: Batch, drv: Driver) -> None:
                 # the constructor failed before/without a decision (e.g. sandbox + remote source + no base_url)
                 ctx.count('resolve:impl-' + d)
                 continue
-            if m['decision'] != d:
+            if (m['decision'] == 'blocked-remote' and d == 'ok' and case['allow'] in ('local', 'sandbox')
+                    and '\n' in (impl['url'] or '')):
+                # C12-F4: the model's resolve describes the repaired check (every non-local URL is refused);
+                # the property evaluation of the same run reports the case as the known finding
+                ctx.count('resolve:known-C12-F4')
+            elif m['decision'] != d:
                 ctx.mismatch('XMLResource access decision', case, impl, m)
             elif m['norm']['kind'] == 'file' and impl['url'] is not None and enc(impl['url']) != m['norm']['url']:
                 ctx.mismatch('XMLResource url', case, impl, m)
+
+
+# ----------------------------------------------------------------------------------------------
+# coding: the stdlib re-implementations of the model against CPython, and the coding theorems on
+# the real functions
+# ----------------------------------------------------------------------------------------------
+CODING_ALPHABET = ['/', '/', '/', '.', '.', '..', 'a', 'b', 'Z', '0', '9', '%', '%2', '%2F', '%2e', '%41', '%c3%a9', '%ff',
+                   '%C3', ' ', '~', '_', '-', ':', '?', '#', '@', '&', '=', '+', ';', '\\', 'é', '€', '\t', '\x1f', '|', '"',
+                   '<', '[', '$', "'", '(', ',', '!', '*', '{', '^', '`', '\x7f', '😀']
+CODING_FIXED = ['', '/', '//', '///', '.', '..', './', '/.', '/..', '../..', 'a/..', '/a/../..', 'a//b', '//a/../b', '///a',
+                'file:///a/b', 'file:', 'file://', 'file:///', 'file:////a', 'http://h/p?q#f', 'HTTP://H/%7e', 'a b', '%',
+                '%%', '%4', '%zz', '%41%42', 'urn:x:y', 'c:/x', 'x:', ':x', 'http:', 'http:/a', 'http:a', 'xyz:///p',
+                'ftp://u:p@h:21/%2Fetc', 'http://h/a b', 'http://h/é', 'http://h/%C3%A9', 'http://h/%ff', 'http://h/a+b',
+                'http://h/a+b c', 'http://h/?a=1&b=2', 'http://h/#%20', 'svn+ssh://h/p', 'git:p', 'mailto:a@b', 'data:,x']
+
+
+def coding_strings(rng, n: int) -> list[str]:
+    out = list(CODING_FIXED)
+    for _ in range(n):
+        k = rng.randint(1, 9)
+        out.append(''.join(rng.choice(CODING_ALPHABET) for _ in range(k)))
+    return out
+
+
+def coding_cases(ctx: Ctx, drv: Optional[Driver]) -> None:
+    import posixpath
+    from urllib.parse import quote_from_bytes, unquote_to_bytes, urlunsplit, quote
+    from xmlschema.utils.urls import is_local_url, is_remote_url
+    strs = coding_strings(ctx.rng, ctx.pick(700, 6000))
+    reqs, keep = [], []
+    for t in strs:
+        b = t.encode('utf-8')
+        # the coding theorems on the real functions
+        np = posixpath.normpath(t)
+        if posixpath.normpath(np) != np:
+            ctx.failure('posixpath.normpath is not idempotent', {'p': t}, {'once': np, 'twice': posixpath.normpath(np)})
+        if unquote_to_bytes(quote_from_bytes(b)) != b:
+            ctx.failure('unquote_to_bytes(quote_from_bytes(p)) != p', {'p': t}, None)
+        if np != '.' and any(c in ('.', '') for c in np.strip('/').split('/')) and np.strip('/') != '':
+            ctx.failure("posixpath.normpath left a '.' or empty segment", {'p': t}, {'normpath': np})
+        ctx.case({'coding': t}, True, tag='coding')
+        ctx.count('coding:strings')
+        if drv is None or not in_model_domain(t):
+            continue
+        reqs.append({'op': 'coding', 'p': enc(t)})
+        keep.append(t)
+    if drv is None:
+        return
+    for t, m in zip(keep, drv.query(reqs)):
+        if 'err' in m:
+            ctx.mismatch('driver error', {'coding': t}, None, m)
+            continue
+        b = t.encode('utf-8')
+        try:
+            sp = urlsplit(t)
+            split = [sp.scheme, sp.netloc, sp.path, sp.query, sp.fragment]
+            unsplit = urlunsplit(sp)
+        except ValueError:
+            split = unsplit = None
+        try:
+            unquote_to_bytes(b).decode('utf-8')
+            uq_utf8 = True
+        except UnicodeDecodeError:
+            uq_utf8 = False
+        cls = 'local' if is_local_url(t) else 'remote' if is_remote_url(t) else 'neither'
+        impl = {'normpath': posixpath.normpath(t), 'quote': quote_from_bytes(b), 'unquote': unquote_to_bytes(b).decode('latin-1'),
+                'dirname': os.path.dirname(t), 'utf8': True, 'uq_utf8': uq_utf8, 'quote_path': quote(t, safe='/'),
+                'quote_netloc': quote(t, safe='@:'), 'quote_query': quote(t, safe=';/?:@=&'),
+                'quote_local': quote(t, safe=':/\\'), 'class': cls}
+        for k, v in impl.items():
+            ctx.traces += 1
+            mv = m[k]
+            if k in ('normpath', 'dirname'):
+                v = enc(v)
+            if mv != v:
+                ctx.mismatch('coding:' + k, {'p': t}, v, mv)
+        if split is not None and '[' not in t and ']' not in t:
+            ctx.traces += 2
+            if [enc(x) for x in split] != m['split']:
+                ctx.mismatch('coding:urlsplit', {'p': t}, split, m['split'])
+            if enc(unsplit) != m['unsplit']:
+                ctx.mismatch('coding:urlunsplit', {'p': t}, unsplit, m['unsplit'])
+
+
+# ----------------------------------------------------------------------------------------------
+# render: normalize_url of locations that are not local files
+# ----------------------------------------------------------------------------------------------
+RENDER_URLS = ['http://stub.test/other/inc.xsd', 'HTTP://Stub.Test/a b/c', 'http://stub.test/a%20b/c', 'http://stub.test/é',
+               'https://u:p@stub.test:8080/p;x?q=1&r=a b#f g', 'ftp://stub.test/%2Fetc/x', 'http:/rooted', 'http:rel/x',
+               'xyz:///p/q', 'xyz:opaque', 'http://stub.test', 'http://stub.test/', 'http://stub.test/a/../b/./c',
+               'http://stub.test/a+b', 'http://stub.test/a+b%20c', 'http://stub.test/%41', 'http://stub.test/%zz',
+               'http://stub.test/p?x=%26', 'http://stub.test/p#%23', ' http://stub.test/lead', 'http://stub.test/trail ',
+               'svn+ssh://h/p', 'git:p/q', 'mailto:a@b.c', 'data:text/plain,hi there', 'http://stub.test/\\back',
+               'http://stub.test/~t/_-.', 'ab://h/p', 'http://h/a|b', 'http://[::1]/p', 'urn:c12:mapped', 'urn:a:b?x',
+               'x.xsd', '../up/x.xsd', 'sub/./y.xsd', '/abs/z.xsd', 'a b.xsd', 'a%20b.xsd', '%2e%2e/x', '?q', '#f', '']
+RENDER_BASES = [None, HOST + '/sand/', HOST + '/sand', HOST, 'https://stub.test/p/../q/', 'http://stub.test/a b/', 'xyz://h/d/',
+                'http://stub.test/a%20b/x', '{R}/sand']
+
+
+def render_cases(ctx: Ctx, drv: Optional[Driver], tree: 'Tree') -> None:
+    from xmlschema.utils.urls import normalize_url, is_remote_url, is_local_url
+    urls = list(RENDER_URLS)
+    for _ in range(ctx.pick(150, 1500)):
+        k = ctx.rng.randint(0, 5)
+        urls.append(ctx.rng.choice(['http://stub.test/', 'http://stub.test', 'xyz:', 'https://u@h:1/', 'ftp://h/', '', '', 'HTTP://H/']) +
+                    ''.join(ctx.rng.choice(CODING_ALPHABET) for _ in range(k)))
+    reqs, keep = [], []
+    for u in urls:
+        for b0 in RENDER_BASES:
+            b = None if b0 is None else b0.replace('{R}', tree.root)
+            try:
+                r = normalize_url(u, b)
+            except Exception as e:      # noqa
+                r = None
+                exc = type(e).__name__
+            case = {'url': u, 'base': b0}
+            ctx.case({'render': case}, True, tag='render')
+            if r is not None and is_remote_scheme(r):
+                # a location that normalises to a non-local URL is a remote URL for access_control and is
+                # never handed to the file handler of urlopen (dispatch on the scheme of the rendered URL)
+                ctx.count('render:remote')
+                if not is_remote_url(r) or is_local_url(r) or urlsplit(r).scheme in ('', 'file'):
+                    ctx.failure('a remote location was rendered as a URL that is treated as local', case, {'rendered': r})
+            elif r is not None and is_remote_scheme(u.lstrip()):
+                ctx.failure('a location with a non-local scheme was normalised to a local URL', case, {'rendered': r})
+            if drv is not None and in_model_domain(u, b) and '[' not in u and ']' not in u:
+                reqs.append({'op': 'render', 'cwd': enc(tree.sand), 'base': enc(b), 'url': enc(u)})
+                keep.append((case, r))
+    if drv is None:
+        return
+    for (case, r), m in zip(keep, drv.query(reqs)):
+        if 'err' in m:
+            ctx.mismatch('driver error', case, r, m)
+            continue
+        kind = m['norm']['kind']
+        if kind != 'remote':
+            ctx.count('render:model-' + kind)
+            continue
+        if m['url'] is None:
+            # get_uri raises (URN forms) or a UTF-8 replacement is needed: not rendered by the model
+            ctx.count('render:model-none')
+            if r is not None:
+                try:
+                    unquote(case['url'], errors='strict')
+                    ok = True
+                except UnicodeDecodeError:
+                    ok = False
+                if ok and not case['url'].lstrip().lower().startswith('urn:'):
+                    ctx.traces += 1
+                    ctx.mismatch('remote rendering (model gives up, code renders)', case, r, m)
+            continue
+        ctx.traces += 1
+        ctx.count('render:compared')
+        if r is None or enc(r) != m['url']:
+            ctx.mismatch('remote rendering', case, r, m)
+        elif m['class'] != 'remote':
+            ctx.mismatch('class of the rendered remote URL', case, r, m)
+
+
+# ----------------------------------------------------------------------------------------------
+# trace: whole load trees against the model the induction theorems are about
+# ----------------------------------------------------------------------------------------------
+TRACE_DIRS = ['sand', 'sand/sub', 'sand/sub/deep', 'sand/a b', 'sand_evil', 'other', '']
+
+
+def spell_local(rng, cur_dir: str, target: str, R: str) -> str:
+    """a spelling of the absolute path `target` as seen from a document in the local directory `cur_dir`"""
+    style = rng.random()
+    if style < 0.55:
+        body = os.path.relpath(target, cur_dir)
+        segs = body.split('/')
+        out = []
+        for sg in segs:
+            r = rng.random()
+            if r < 0.12:
+                out.append('.')
+            if 0.2 < r < 0.28 and sg != '..':
+                out.extend([sg, '..'])
+            out.append(sg)
+        if rng.random() < 0.2:
+            # climb above the file system root and come back: normpath clamps at '/'
+            pass
+        body = '/'.join(out)
+        pre = rng.choice(['', '', '', './', 'file:', ' '])
+    elif style < 0.8:
+        body = target if rng.random() < 0.6 else cur_dir + '/' + os.path.relpath(target, cur_dir)
+        pre = rng.choice(['', '', 'file://', 'file:', 'file:///'])
+        if pre == 'file:///':
+            body = body[1:]
+    else:
+        body = target
+        pre = 'file://'
+
+    def pe(s: str) -> str:
+        o = []
+        for ch in s:
+            r = rng.random()
+            if r < 0.07 and ch != '/':
+                o.append(('%%%02X' if rng.random() < 0.5 else '%%%02x') % ord(ch))
+            elif ch == ' ':
+                o.append(rng.choice([' ', '%20']))
+            elif ch == '/' and r < 0.05:
+                o.append(rng.choice(['//', '%2F']))
+            else:
+                o.append(ch)
+        return ''.join(o)
+    return pre + pe(body)
+
+
+class TraceGen:
+    """A random tree of documents written into the temp tree (local) or served by the stub (remote)."""
+
+    def __init__(self, rng, tree: 'Tree', cid: int, allow: str) -> None:
+        self.rng, self.tree, self.cid, self.allow = rng, tree, cid, allow
+        self.n = 0
+        self.files: list[str] = []          # created local files
+        self.served: dict[str, bytes] = {}  # created remote documents (url path -> body)
+        self.owner: dict[str, tuple[str, str]] = {}
+        self.mapper: dict[str, str] = {}
+        self.post: list = []                # postorder [loc, strict, n_children]
+        self.size = 0
+
+    def new_doc(self, remote: bool, depth: int, budget: list, imported: bool) -> tuple[str, str]:
+        """creates a document (with its references, recursively); returns (where, location id)"""
+        self.n += 1
+        i = self.n
+        d = self.rng.choice(TRACE_DIRS if self.allow != 'sandbox' or self.rng.random() < 0.35
+                            else ['sand', 'sand/sub', 'sand/sub/deep', 'sand/a b'])
+        name = f't{self.cid}_{i}.xsd'
+        el = f'e{self.cid}_{i}'
+        if remote:
+            where = '/' + (d.replace(' ', '_') + '/' if d else '') + name
+            cur = ('remote', os.path.dirname(where))
+        else:
+            where = os.path.join(self.tree.root, d, name) if d else os.path.join(self.tree.root, name)
+            cur = ('local', os.path.dirname(where))
+        refs = []
+        kids = 0
+        n_refs = 0 if depth >= 4 else self.rng.choice([0, 1, 1, 2, 2, 3])
+        for _ in range(n_refs):
+            if budget[0] <= 0:
+                break
+            budget[0] -= 1
+            refs.append(self.new_ref(cur, depth + 1, budget))
+            kids += 1
+        tns = f' targetNamespace="urn:n{self.cid}_{i}"' if imported else ''
+        body = (f'<xs:schema xmlns:xs="{XS}"{tns}>' + ''.join(refs) +
+                f'<xs:element name="{el}" type="xs:string"/></xs:schema>')
+        if remote:
+            self.served[where] = body.encode()
+            self.owner[el] = ('remote', where)
+        else:
+            os.makedirs(os.path.dirname(where), exist_ok=True)
+            with open(where, 'w') as f:
+                f.write(body)
+            self.files.append(where)
+            self.owner[el] = ('file', where)
+        return where, kids, tns
+
+    def new_ref(self, cur: tuple[str, str], depth: int, budget: list) -> str:
+        """one reference element inside a document living in `cur`; appends the subtree in postorder"""
+        from xml.sax.saxutils import quoteattr
+        rng = self.rng
+        r = rng.random()
+        imported = rng.random() < 0.4
+        kids = 0
+        tns_attr = ''
+        if r < 0.68:            # an existing local document
+            where, kids, tns = self.new_doc(False, depth, budget, imported)
+            if cur[0] == 'local':
+                loc = spell_local(rng, cur[1], where, self.tree.root)
+            else:
+                loc = rng.choice(['file://', '']) + where
+        elif r < 0.80:          # an existing remote document
+            where, kids, tns = self.new_doc(True, depth, budget, imported)
+            if cur[0] == 'remote' and rng.random() < 0.6:
+                loc = os.path.relpath(where, cur[1])
+            else:
+                loc = rng.choice([HOST, 'HTTP://stub.test', HOST]) + where
+        else:                   # nothing there: a missing file, a directory, an unserved URL
+            tns = ' targetNamespace="urn:none"' if imported else ''
+            if cur[0] == 'local':
+                loc = rng.choice(['nope.xsd', '../nope/x.xsd', '.', '..', '../../other/nope.xsd', self.tree.root + '/other',
+                                  HOST + '/nope.xsd', 'sub/', self.tree.root + '/sand_evil/nope.xsd', '../sand_evil/.'])
+            else:
+                loc = rng.choice(['nope.xsd', '../nope.xsd', self.tree.root + '/other/nope.xsd', HOST + '/nope2.xsd'])
+        if not imported and rng.random() < 0.15:      # (an import normalises the location before the mapper sees it)
+            key = f'urn:c12:k{len(self.mapper)}'
+            self.mapper[key] = loc
+            loc = key
+        self.post.append([loc, not imported, kids])
+        if imported:
+            ns = tns.split('"')[1] if tns else 'urn:none'
+            return f'<xs:import namespace="{ns}" schemaLocation={quoteattr(loc)}/>'
+        return f'<xs:include schemaLocation={quoteattr(loc)}/>'
+
+    def cleanup(self) -> None:
+        for p in self.files:
+            try:
+                os.remove(p)
+            except OSError:
+                pass
+
+
+def url_of_path(p: str) -> str:
+    from urllib.parse import quote_from_bytes
+    return 'file://' + quote_from_bytes(os.fsencode(p))
+
+
+def run_trace_case(ctx: Ctx, tree: 'Tree', cid: int, seed: Any, with_req: bool) -> tuple[dict, dict, Optional[dict]]:
+    """one load tree, reproducible from (seed, cid): generate the documents, build on the real code, evaluate"""
+    import random
+    from xmlschema import XMLSchema10
+    from xmlschema.exceptions import XMLSchemaException
+    os.makedirs(os.path.join(tree.root, 'sand/sub/deep'), exist_ok=True)
+    rng = random.Random(f'{seed}:trace:{cid}')
+    allow = MODES[cid % len(MODES)]
+    gen = TraceGen(rng, tree, cid, allow)
+    remote_root = allow in ('remote', 'all') and rng.random() < (0.8 if allow == 'remote' else 0.25)
+    budget = [rng.choice([2, 4, 6, 9])]
+    root_kids = 0
+    refs = []
+    cur = ('remote', '/sand') if remote_root else ('local', tree.sand)
+    for _ in range(rng.choice([1, 2, 2, 3])):
+        refs.append(gen.new_ref(cur, 1, budget))
+        root_kids += 1
+    body = (f'<xs:schema xmlns:xs="{XS}">' + ''.join(refs) + f'<xs:element name="e{cid}_0" type="xs:string"/></xs:schema>')
+    name = f't{cid}_0.xsd'
+    main_path = os.path.join(tree.sand, name)
+    if remote_root:
+        gen.served['/sand/' + name] = body.encode()
+        src = HOST + '/sand/' + name
+    else:
+        with open(main_path, 'w') as f:
+            f.write(body)
+        gen.files.append(main_path)
+        src = rng.choice([main_path, 'file://' + main_path, name, './' + name, tree.sand + '/sub/../' + name])
+    base = rng.choice([None, None, tree.sand, tree.root, 'file://' + tree.sand]) if not remote_root else None
+    if allow == 'sandbox' and remote_root:
+        base = tree.sand
+    gen.post.append([src, True, root_kids])
+    kwargs: dict[str, Any] = {'allow': allow}
+    if base is not None:
+        kwargs['base_url'] = base
+    if gen.mapper:
+        kwargs['uri_mapper'] = dict(gen.mapper)
+    Obs.table = dict(tree.table)
+    Obs.table.update(gen.served)
+    saved_owner = dict(tree.owner)
+    tree.owner.update(gen.owner)
+    Obs.events, Obs.served, Obs.access, Obs.inits = [], [], [], []
+    sandbox_dir = None
+    if allow == 'sandbox':
+        sandbox_dir = tree.sand if base is None else (base[7:] if base.startswith('file://') else base)
+    obs: dict[str, Any] = {'outcome': 'ok', 'elements': [], 'sandbox_dir': sandbox_dir, 'main_path': main_path}
+    schema = None
+    with warnings.catch_warnings():
+        warnings.simplefilter('ignore')
+        Obs.active = True
+        try:
+            schema = XMLSchema10(src, **kwargs)
+        except (XMLSchemaException, OSError) as e:
+            obs['outcome'] = type(e).__name__
+            obs['message'] = str(e)[:160]
+        except Exception as e:      # noqa
+            obs['outcome'] = 'FOREIGN:' + type(e).__name__
+            obs['message'] = str(e)[:160]
+        finally:
+            Obs.active = False
+    if schema is not None:
+        obs['elements'] = sorted(k.split('}')[-1] for k in schema.maps.elements if not k.startswith('{' + XS))
+    obs.update(events=list(Obs.events), served=list(Obs.served), access=list(Obs.access), inits=list(Obs.inits))
+    case = {'allow': allow, 'kind': 'remote-url' if remote_root else 'path', 'mech': 'trace', 'loc': src.replace(tree.root, '$R'),
+            'base': None if base is None else base.replace(tree.root, '$R'), 'seed_case': cid, 'trace_seed': seed,
+            'nodes': json.loads(json.dumps(gen.post).replace(tree.root, '$R')),
+            'mapper': json.loads(json.dumps(gen.mapper).replace(tree.root, '$R'))}
+    evaluate(ctx, tree, case, obs)
+    # every child resource is constructed with the root's allow mode (settings.py:259-285)
+    for r in obs['inits']:
+        if r['allow'] != allow:
+            ctx.failure('a sub-resource was constructed with another allow mode than the root', case,
+                        {'source': r['source'], 'allow': r['allow']})
+    req = None
+    if with_req and in_model_domain(src, base, *[x[0] for x in gen.post], *gen.mapper.values()):
+        req = {'op': 'trace', 'allow': allow, 'cwd': enc(tree.sand), 'base': enc(base), 'root': True,
+               'docs': [enc(url_of_path(p)) for p in gen.files],
+               'mapper': [[enc(k), enc(v)] for k, v in gen.mapper.items()],
+               'nodes': [[enc(l), st, k] for l, st, k in gen.post]}
+    tree.owner.clear()
+    tree.owner.update(saved_owner)
+    gen.cleanup()
+    return case, obs, req
+
+
+def trace_cases(ctx: Ctx, drv: Optional[Driver], tree: 'Tree') -> None:
+    n_cases = ctx.pick(260, 2500)
+    reqs, keep = [], []
+    for cid in range(n_cases):
+        case, obs, req = run_trace_case(ctx, tree, cid, ctx.seed, drv is not None)
+        allow = case['allow']
+        ctx.case(case, any(a['allow'] != 'all' and a['url'] is not None for a in obs['access']) or len(obs['inits']) > 1,
+                 tag='mech:trace')
+        ctx.count(f'trace:allow:{allow}')
+        ctx.count('trace:resources', len(obs['inits']))
+        ctx.count('trace:depth>=3' if any(r['callers'].count('schemas.__init__') >= 3 for r in obs['inits'])
+                  else 'trace:depth<3')
+        for a in obs['access']:
+            ctx.count('trace:access:' + a['decision'])
+        if req is not None:
+            reqs.append(req)
+            keep.append((case, [dict(r) for r in obs['inits']], obs['outcome']))
+    if drv is None:
+        return
+    for (case, inits, outcome), m in zip(keep, drv.query(reqs)):
+        if 'err' in m:
+            ctx.mismatch('driver error', case, None, m)
+            continue
+        compare_trace(ctx, case, inits, outcome, m)
+
+
+def compare_trace(ctx: Ctx, case: dict, inits: list, outcome: str, m: dict) -> None:
+    """recorded XMLResource constructions of the real build, in order, against the model's events"""
+    evs = m['events']
+    k = 0
+    for ev in evs:
+        if ev['ev'] == 'undecided':
+            # a Windows / UNC / URN form or an unrendered remote URL: the model stops describing this branch;
+            # the part of the trace before it is still compared
+            ctx.count('trace:undecided')
+            break
+        if k >= len(inits):
+            ctx.traces += 1
+            ctx.mismatch('trace: the model predicts a resource construction the build did not make', case,
+                         [(r['source'], r['base'], r['decision']) for r in inits], evs)
+            return
+        r = inits[k]
+        k += 1
+        ctx.traces += 1
+        ctx.count('trace:events')
+        d = r['decision']
+        if d.startswith('error:'):
+            ctx.count('trace:impl-' + d)
+            return
+        exp_dec = 'ok' if ev['ev'] == 'opened' else ev['decision']
+        rbase = r['base']
+        if k == 1 and rbase is None and case['allow'] == 'sandbox':
+            rbase = r.get('eff_base')       # the root derives its sandbox from the main source itself
+        same = (enc(r['source'].strip()) == ev['loc'].strip() and enc(rbase) == ev['base'] and d == exp_dec)
+        if same and ev['ev'] == 'opened':
+            n = ev['norm']
+            if n['kind'] == 'file':
+                same = enc(r['url']) == n['url']
+            elif n['kind'] == 'remote' and ev.get('rurl') is not None:
+                same = enc(r['url']) == ev['rurl']
+        if not same:
+            ctx.mismatch('trace: resource construction #%d differs' % k, case,
+                         {'source': r['source'], 'base': r['base'], 'url': r['url'], 'decision': d}, ev)
+            return
+    else:
+        ctx.traces += 1
+        if k != len(inits):
+            ctx.mismatch('trace: the build constructed more resources than the model predicts', case,
+                         [(r['source'], r['base'], r['decision']) for r in inits[k:]], evs)
+        elif m['aborted'] != (outcome == 'XMLResourceBlocked'):
+            ctx.mismatch('trace: abort by a blocked strict reference', case, outcome, m['aborted'])
+        else:
+            ctx.count('trace:complete')
 
 
 # ----------------------------------------------------------------------------------------------
@@ -764,6 +1286,12 @@ def explore(ctx: Ctx, drv: Optional[Driver], full: bool) -> None:
                                       'norm', {'url': loc.replace(R, '$R'), 'base': b}, impl_norm(loc, base))
         # ---- 2. nested references: the sandbox of a sub-resource -----------------------------
         nested(ctx, tree, batch if drv is not None else None)
+        # ---- 3. whole load trees, remote rendering, the stdlib re-implementations ------------------
+        newline_cases(ctx, tree, batch if drv is not None else None)
+        remote_base_cases(ctx, tree, batch if drv is not None else None)
+        trace_cases(ctx, drv, tree)
+        render_cases(ctx, drv, tree)
+        coding_cases(ctx, drv)
         if drv is not None:
             compare_batch(ctx, batch, drv)
             ctx.extra['driver_requests'] = len(batch.reqs)
@@ -824,6 +1352,117 @@ def nested(ctx: Ctx, tree: Tree, batch: Optional[Batch]) -> None:
                     pass
 
 
+def newline_cases(ctx: Ctx, tree: Tree, batch: Optional[Batch]) -> None:
+    """Locations with percent-encoded control characters, joined to a REMOTE base (witness family of C12-F4 and of
+    remote_render_counterexample): under local / sandbox / none no remote request may be made."""
+    locs = ['in%0Ac.xsd', 'in%0ac.xsd', 'in%0Dc.xsd', 'in%09c.xsd', '%0A/../inc.xsd', 'in%0A%0Ac.xsd', 'i%0Anc.xsd?x=1', 'inc.xsd',
+            'imp%0A.xsd']
+    for allow in MODES:
+        for loc in locs:
+            for base in (HOST + '/other/', 'HTTP://stub.test/other/x.xsd', 'ftp://stub.test/other/'):
+                case = {'allow': allow, 'kind': 'text', 'mech': 'newline-remote-base', 'loc': loc, 'base': base, 'class': 'remote'}
+                obs = run_remote_base(tree, allow, 'text', 'include', loc, base, 0)
+                evaluate(ctx, tree, case, obs)
+                ctx.case(case, any(a['allow'] != 'all' for a in obs['access']), tag='mech:newline-remote-base')
+                ctx.count('outcome:' + obs['outcome'])
+                if batch is not None:
+                    collect_model_requests(batch, case, obs, tree.sand)
+
+
+def run_remote_base(tree: Tree, allow: str, kind: str, mech: str, loc: str, base: str, idx: int) -> dict:
+    """one case of the remote-base families on the real code: main source of `kind` with a REMOTE base_url"""
+    import xml.etree.ElementTree as ET
+    import xmlschema
+    from xmlschema import XMLSchema10, XMLSchema11
+    from xmlschema.exceptions import XMLSchemaException
+    text = main_text(mech, loc)
+    name = f'rb_{idx % 5}.' + ('xml' if mech.startswith('hint') else 'xsd')
+    Obs.table = dict(tree.table)
+    Obs.table[f'/sand/{name}'] = text.encode()
+    kwargs: dict[str, Any] = {'allow': allow, 'base_url': base}
+    if kind == 'text':
+        src: Any = text
+    elif kind == 'fileobj':
+        src = io.BytesIO(text.encode())
+    elif kind == 'element':
+        src = ET.fromstring(text)
+    else:
+        src = f'{HOST}/sand/{name}'
+    if mech == 'uri-mapper':
+        kwargs['uri_mapper'] = {'urn:c12:mapped': loc}
+    if mech == 'locations':
+        kwargs['locations'] = {'urn:imp': loc}
+    Obs.events, Obs.served, Obs.access, Obs.inits = [], [], [], []
+    obs: dict[str, Any] = {'outcome': 'ok', 'elements': [], 'sandbox_dir': None, 'main_path': ''}
+    schema = None
+    with warnings.catch_warnings():
+        warnings.simplefilter('ignore')
+        Obs.active = True
+        try:
+            if mech == 'hint-fetch':
+                try:
+                    xmlschema.validate(src, **kwargs)
+                except xmlschema.XMLSchemaValidationError:
+                    obs['outcome'] = 'invalid'
+            elif mech == 'hint-dynamic':
+                schema = XMLSchema10(DYN_SCHEMA, allow=allow, base_url=base)
+                errs = list(schema.iter_errors(src, use_location_hints=True))
+                obs['outcome'] = 'invalid' if errs else 'ok'
+            else:
+                cls = XMLSchema11 if mech == 'override' else XMLSchema10
+                schema = cls(src, **kwargs)
+        except (XMLSchemaException, OSError) as e:
+            obs['outcome'] = type(e).__name__
+            obs['message'] = str(e)[:160]
+        except Exception as e:      # noqa
+            obs['outcome'] = 'FOREIGN:' + type(e).__name__
+            obs['message'] = str(e)[:160]
+        finally:
+            Obs.active = False
+    if schema is not None:
+        try:
+            obs['elements'] = sorted(k.split('}')[-1] for k in schema.maps.elements if not k.startswith('{' + XS))
+        except Exception:       # noqa
+            pass
+    obs.update(events=list(Obs.events), served=list(Obs.served), access=list(Obs.access), inits=list(Obs.inits))
+    return obs
+
+
+def remote_base_cases(ctx: Ctx, tree: Tree, batch: Optional[Batch]) -> None:
+    """allow mode x REMOTE base_url x main-source kind x mechanism x spelling (relative to the remote base /
+    absolute remote / local).  In sandbox mode every remote URL is refused, also when it lies below the remote
+    sandbox base; a remote main source with a remote base is refused as well."""
+    R = tree.root
+    bases = [HOST + '/sand/', HOST + '/sand', 'HTTP://stub.test/sand/x.xsd', 'https://stub.test/']
+    kinds = ['text', 'fileobj', 'element', 'remote-url']
+    mechs = ['include', 'redefine', 'override', 'import', 'uri-mapper', 'locations', 'hint-fetch', 'hint-dynamic']
+    idx = 0
+    for allow in MODES:
+        for mi, mech in enumerate(mechs):
+            f = 'inc.xsd' if mech in ('include', 'redefine', 'override', 'uri-mapper') else 'imp.xsd'
+            spell = [f, './' + f, 'sub/' + f, 'sub/../' + f, '../other/' + f, '/sand/' + f, f'{HOST}/sand/{f}', f'{HOST}/sand/sub/{f}',
+                     f'{HOST}/other/{f}', f'HTTP://stub.test/sand/{f}', f'{R}/sand/{f}', f'file://{R}/sand/{f}', '%2e/' + f]
+            for si, loc in enumerate(spell):
+                for bi, base in enumerate(bases):
+                    ks = kinds if (not ctx.quick() or allow == 'sandbox') else [kinds[(mi + si + bi) % len(kinds)]]
+                    for kind in ks:
+                        if mech == 'hint-fetch' and kind == 'element':
+                            continue
+                        idx += 1
+                        case = {'allow': allow, 'kind': kind, 'mech': 'remote-base:' + mech, 'loc': loc.replace(R, '$R'),
+                                'base': base, 'class': 'remote-base', 'idx': idx}
+                        obs = run_remote_base(tree, allow, kind, mech, loc, base, idx)
+                        evaluate(ctx, tree, case, obs)
+                        ctx.case(case, any(a['allow'] != 'all' and a['url'] is not None for a in obs['access']),
+                                 tag='mech:remote-base')
+                        ctx.count(f'remote-base:{allow}')
+                        ctx.count('outcome:' + obs['outcome'])
+                        for a in obs['access']:
+                            ctx.count('impl-access:' + a['decision'])
+                        if batch is not None:
+                            collect_model_requests(batch, case, obs, tree.sand)
+
+
 def translate(ctx: Ctx) -> None:
     """Regenerate the mode enumeration the exhaustive-case theorems range over."""
     from xmlschema.arguments import SECURITY_MODES
@@ -838,6 +1477,7 @@ def translate(ctx: Ctx) -> None:
 
 
 def run(ctx: Ctx, driver_ok: bool) -> None:
+    load_findings(ctx)
     drv = Driver('drv_c12') if driver_ok else None
     explore(ctx, drv, full=not ctx.quick())
     ctx.extra['exhaustive'] = not ctx.quick()
@@ -857,6 +1497,7 @@ def replay(ctx: Ctx, obj: dict) -> int:
     case = obj.get('input')
     if not case or 'mech' not in case:
         return 0
+    load_findings(ctx)
     install_observers()
     tree = Tree()
     Obs.root = tree.root
@@ -870,7 +1511,16 @@ def replay(ctx: Ctx, obj: dict) -> int:
         if case['mech'] == 'nested-include':
             print('nested cases are re-run by the quick tier; replaying the inner reference as a plain include')
             case = dict(case, mech='include')
-        obs = run_real(tree, case['allow'], case['kind'], case['mech'], loc, 0)
+        if case['mech'] == 'trace':
+            case, obs, _ = run_trace_case(ctx, tree, case['seed_case'], case.get('trace_seed', obj.get('seed', 0)), False)
+            print('regenerated load tree (postorder [location, strict, children]):', case['nodes'])
+        elif case['mech'] == 'newline-remote-base':
+            obs = run_remote_base(tree, case['allow'], 'text', 'include', loc, case['base'], 0)
+        elif case['mech'].startswith('remote-base:'):
+            obs = run_remote_base(tree, case['allow'], case['kind'], case['mech'].split(':', 1)[1], loc, case['base'],
+                                  case.get('idx', 0))
+        else:
+            obs = run_real(tree, case['allow'], case['kind'], case['mech'], loc, 0)
         print('REAL CODE: outcome', obs['outcome'], obs.get('message', ''))
         print('  opened  :', [p.replace(tree.root, '$R') for e, p in obs['events'] if e == 'open'])
         print('  requests:', [u.replace(tree.root, '$R') for e, u in obs['events'] if e == 'req'])
@@ -885,9 +1535,12 @@ def replay(ctx: Ctx, obj: dict) -> int:
                 print('MODEL    :', r['source'].replace(tree.root, '$R'), '->', m['decision'], m['norm'].get('url', m['norm']['kind']))
         except Exception as e:      # noqa
             print('model not available:', e)
-        evaluate(ctx, tree, case, obs)
+        if case['mech'] != 'trace':
+            evaluate(ctx, tree, case, obs)
         for f in ctx.failures:
             print('FAILS ON THE REAL CODE:', f['what'], f['detail'])
+        for fid, n in ctx.known_hits.items():
+            print('matches known finding', fid, f'({n} judgement(s))')
         return 1 if ctx.failures else 0
     finally:
         os.chdir(old)
